@@ -58,7 +58,7 @@ package funnel
 //verif:func (*multiAckNacker).ackBatch(m, from, to) (b)
 //verif:requires 0 <= from && from <= to && to <= len(m.positions) && to <= len(m.record)
 //verif:ensures[fresh] fresh(b) && b != nil
-//verif:ensures[window] b.positions == m.positions[from:to] && len(b.records) == to - from && len(b.recordStatuses) == to - from
+//verif:ensures[window] sameWindow(b.positions, m.positions, from, to) && len(b.records) == to - from && len(b.recordStatuses) == to - from
 //verif:modifies nothing
 
 //verif:func (*multiAckNacker).nackBatch(m, idx) (b)
@@ -74,7 +74,7 @@ package funnel
 //verif:ensures[maximal] err == nil ==> m.released == len(m.positions) || !m.terminal[m.released]
 //verif:call-preserves ackNacker.Ack : all(m), m.terminal[*], m.acked[*], m.ackVotes[*], m.positions[*], m.nackTaskID[*], m.nackErr[*] because "the parent of a multiAckNacker is the acker it was created with (Worker, runAckNacker or an outer multiAckNacker); the ackNacker graph is a tree, so no parent holds a reference to m or to the slices m owns"
 //verif:call-preserves ackNacker.Nack : all(m), m.terminal[*], m.acked[*], m.ackVotes[*], m.positions[*], m.nackTaskID[*], m.nackErr[*] because "see ackNacker.Ack"
-//verif:call[ack-unanimous] ackNacker.Ack requires len(arg1.positions) > 0 && arg1.positions == m.positions[m.released : m.released + len(arg1.positions)] && m.released + len(arg1.positions) <= len(m.positions) && forall k in [0, len(arg1.positions)): m.terminal[m.released + k] && m.acked[m.released + k] && m.ackVotes[m.released + k] == m.branches
+//verif:call[ack-unanimous] ackNacker.Ack requires len(arg1.positions) > 0 && sameWindow(arg1.positions, m.positions, m.released, m.released + len(arg1.positions)) && m.released + len(arg1.positions) <= len(m.positions) && forall k in [0, len(arg1.positions)): m.terminal[m.released + k] && m.acked[m.released + k] && m.ackVotes[m.released + k] == m.branches
 //verif:call[nack-at-cursor] ackNacker.Nack requires len(arg1.positions) == 1 && arg1.positions[0] == m.positions[m.released] && m.terminal[m.released] && !m.acked[m.released]
 //verif:loop 0 invariant mInv(m) && m.released >= old(m.released)
 //verif:loop 0 invariant m.positions == old(m.positions) && m.terminal == old(m.terminal) && m.acked == old(m.acked) && m.branches == old(m.branches)
@@ -85,6 +85,7 @@ package funnel
 
 // ---- Batch: structural invariant (lengths of the parallel slices) -----------
 
+//verif:def sameWindow(s, t, from, to) = base(s) == base(t) && off(s) == off(t) + from && len(s) == to - from
 //verif:def BLens(b) = len(b.records) == len(b.recordStatuses) && len(b.records) == len(b.positions) && (isnil(b.runs) || len(b.runs) == len(b.records)) && 0 <= b.filterCount && b.filterCount <= len(b.records)
 
 // ---- DestinationTask (C01, C09) ---------------------------------------------
@@ -103,3 +104,70 @@ package funnel
 //verif:ensures[ack-coverage] err == nil ==> ackCount == len(positions)
 //verif:call[write-active] Destination.Write requires arg1 == result_of("(*Batch).ActiveRecords", 0)
 //verif:loop 1 invariant 0 <= ackCount && ackCount <= len(positions) && len(positions) == len(records)
+
+// ---- Batch operations used by the ack path ------------------------------------
+
+//verif:func NewBatch(records) (b)
+//verif:ensures[fresh] fresh(b) && b != nil
+//verif:ensures[lens] BLens(b) && len(b.records) == len(records) && b.filterCount == 0 && !b.tainted && b.records == records
+//verif:ensures[statuses] forall k in [0, len(records)): b.recordStatuses[k].Flag == RecordFlagAck && b.recordStatuses[k].Error == nil
+//verif:ensures[positions] forall k in [0, len(records)): b.positions[k] == records[k].Position
+//verif:modifies nothing
+//verif:loop 0 vars j
+//verif:loop 0 invariant j < len(records) && len(positions) == len(records) && forall k in [0, j+1): positions[k] == records[k].Position
+
+//verif:func (*Batch).originalBatch(b) (ob)
+//verif:requires BLens(b)
+//verif:ensures[lens] ob != nil && BLens(ob) && len(ob.records) <= len(b.records)
+//verif:ensures[identity] len(b.splitRecords) == 0 ==> ob == b
+//verif:modifies nothing
+
+//verif:func (*Batch).sub(b, from, to) (s)
+//verif:requires BLens(b) && 0 <= from && from <= to && to <= len(b.records)
+//verif:ensures[fresh] fresh(s) && s != nil
+//verif:ensures[window] sameWindow(s.records, b.records, from, to) && sameWindow(s.positions, b.positions, from, to) && sameWindow(s.recordStatuses, b.recordStatuses, from, to)
+//verif:ensures[clipped] cap(s.records) == to - from && cap(s.positions) == to - from && cap(s.recordStatuses) == to - from
+//verif:ensures[lens] len(s.records) == to - from && len(s.positions) == to - from && len(s.recordStatuses) == to - from && BLens(s)
+//verif:loop 0 vars fc, j
+//verif:loop 0 invariant 0 <= fc && fc <= j + 1 && j < to - from
+//verif:modifies nothing
+
+// ---- Worker.Ack / Worker.Nack (C01, C02, C04, C07) ----------------------------
+
+//verif:func validateAckPositions(positions) (err)
+//verif:ensures[nonempty] err == nil ==> forall k in [0, len(positions)): len(positions[k]) != 0
+//verif:modifies nothing
+//verif:loop 0 vars j
+//verif:loop 0 invariant j < len(positions) && forall k in [0, j+1): len(positions[k]) != 0
+
+//verif:func (*Worker).Ack(w, ctx, batch) (err)
+//verif:requires BLens(batch)
+//verif:call[ack-original-positions] Source.Ack requires succeeded("validateAckPositions") && arg1 == result_of("(*Batch).originalBatch", 0).positions && forall k in [0, len(arg1)): len(arg1[k]) != 0
+//verif:ensures[single-ack] count("Source.Ack") <= 1
+
+//verif:func (*Worker).Nack(w, ctx, batch, taskID) (err)
+//verif:requires BLens(batch)
+//verif:assume w.DLQ != nil && w.DLQ.window != nil && winInv(w.DLQ.window) because "the DLQ of a worker is built by NewDLQ/newDLQWindow (winInv proved) and its window is only touched by DLQ.Ack/DLQ.Nack under d.m, each proved to preserve winInv"
+//verif:call[ack-only-dlq-prefix] Source.Ack requires result_of("(*DLQ).Nack", 0) > 0 && sameWindow(arg1, result_of("(*Batch).originalBatch", 0).positions, 0, result_of("(*DLQ).Nack", 0)) && forall k in [0, len(arg1)): len(arg1[k]) != 0
+//verif:ensures[single-ack] count("Source.Ack") <= 1
+//verif:ensures[dlq-error-propagates] result_of("(*DLQ).Nack", 1) != nil ==> err != nil
+
+// ---- DLQ (C01, C07, C10) -------------------------------------------------------
+
+//verif:func (*DLQ).Nack(d, ctx, batch, taskID) (n, err)
+//verif:requires BLens(batch) && d.window != nil && winInv(d.window)
+//verif:ensures[inv] winInv(d.window)
+//verif:ensures[range] 0 <= n && n <= len(batch.records)
+//verif:ensures[all-or-error] err == nil && (len(batch.records) == 0 || nacked == len(batch.records) || d.windowNackThreshold > 0 || batch.recordStatuses[nacked].Error != nil) ==> n == len(batch.records)
+//verif:ensures[dlq-write-failure-is-fatal] called("(*DLQ).sendToDLQ") && result_of("(*DLQ).sendToDLQ", 1) != nil ==> is_fatal(err) && n == result_of("(*DLQ).sendToDLQ", 0)
+//verif:ensures[threshold-exceeded-is-error] len(batch.records) > 0 && nacked < len(batch.records) && (d.windowNackThreshold > 0 || batch.recordStatuses[nacked].Error != nil) ==> err != nil
+//verif:ensures[threshold-exceeded-is-fatal] len(batch.records) > 0 && nacked < len(batch.records) && d.windowNackThreshold > 0 ==> is_fatal(err)
+//verif:ensures[n-is-tolerated] len(batch.records) > 0 && !(called("(*DLQ).sendToDLQ") && result_of("(*DLQ).sendToDLQ", 1) != nil) ==> n == nacked
+//verif:call[dlq-prefix] (*DLQ).sendToDLQ requires len(arg2.records) == nacked && nacked > 0 && sameWindow(arg2.positions, batch.positions, 0, nacked) && sameWindow(arg2.records, batch.records, 0, nacked)
+
+//verif:func (*DLQ).sendToDLQ(d, ctx, batch, taskID) (n, err)
+//verif:requires BLens(batch)
+//verif:ensures[range] 0 <= n && n <= len(batch.records)
+//verif:ensures[all-or-error] err == nil ==> n == len(batch.records)
+//verif:ensures[acked-prefix] forall k in [0, n): dlqBatch.recordStatuses[k].Flag == RecordFlagAck
+//verif:loop 1 invariant 0 <= ackCount && ackCount <= len(dlqRecords) && len(dlqBatch.recordStatuses) == len(dlqRecords) && forall k in [0, ackCount): dlqBatch.recordStatuses[k].Flag == RecordFlagAck
